@@ -94,10 +94,40 @@ def eval_call(ex, node: ast.Call, st):
         if f.id in nested:
             return _inline_nested(ex, nested[f.id], [ex.ev(a, st) for a in node.args], st, node)
     if isinstance(f, ast.Attribute):
-        r = _method(ex, f, node, st)
+        try:
+            r = _method(ex, f, node, st)
+        except Unsupported:
+            r = _auto_contract(ex, f, node, st)
+            if r is None:
+                raise
+        if r is not None:
+            return r
+        r = _auto_contract(ex, f, node, st)
         if r is not None:
             return r
     raise Unsupported(f"call `{txt}` has no contract, model or builtin semantics", node)
+
+
+def _auto_contract(ex, f, node, st):
+    """A method call with no directive in the caller's contract: when the receiver is an object of class C and a
+    (non-lemma) contract for C.<method> is loaded, the call is checked against that contract -- so an edit that
+    introduces a call of an already specified method stays within reach."""
+    try:
+        recv = ex.ev(f.value, st)
+    except Unsupported:
+        return None
+    ty = T.opt_inner(recv).ty if isinstance(recv.ty, T.Opt) else recv.ty
+    if not isinstance(ty, T.Ref):
+        return None
+    suffix = f"::{ty.cls}.{f.attr}"
+    cands = [c for c in REG.contracts.values() if c.target.endswith(suffix) and not c.client_src]
+    if not cands:
+        return None
+    cands.sort(key=lambda c: (c.variant is not None and c.variant not in ("py",), c.key))
+    c = cands[0]
+    ex.auto_calls = getattr(ex, "auto_calls", set())
+    ex.auto_calls.add(c.key)
+    return _call_contract(ex, c.key, node, st, recv)
 
 
 def _inline_nested(ex, fdef, argv, st, node):
@@ -463,7 +493,15 @@ def _spec_form(ex, name, node, st):
         st2 = st.fork()
         st2.heap = dict(o.heap)
         st2.epoch = o.epoch
-        # parameters keep their (immutable) bindings; only the heap is rewound
+        # the heap is rewound, and parameters denote their ENTRY values (a parameter may be reassigned in the body);
+        # other names (locals, bound variables, result) keep their current meaning
+        env0 = getattr(o, "env", None) or {}
+        pnames = set(getattr(ex.c, "params", {}) or {})
+        if env0 and pnames and o is getattr(ex, "entry_state", None):     # (not for a callee's clause at a call site)
+            st2.env = dict(st2.env)
+            for n in pnames:
+                if n in env0 and n in st2.env:
+                    st2.env[n] = env0[n]
         return ex.ev(node.args[0], st2)
     if name == "implies":
         a = ex.truthy(st, ex.ev(node.args[0], st))
@@ -644,7 +682,8 @@ def _opaque_reads(ex, name, argv, st):
     return reads
 
 
-UF_RET = {"uf_isWorkingTime": T.Bool, "uf_tzoff": T.Real, "uf_sbidx": T.Int, "uf_minsum": T.Int, "uf_dur": T.Real, "uf_lower": T.Str, "uf_path_of": T.Ref("Path"), "uf_os": T.Ref("OS"), "uf_bytes_of": T.Str, "uf_text_of": T.Str, "uf_sha256": T.Str, "uf_json_report_id": T.Str, "uf_encode": T.Str}
+UF_RET = {"uf_isWorkingTime": T.Bool, "uf_tzoff": T.Real, "uf_sbidx": T.Int, "uf_minsum": T.Int, "uf_dur": T.Real, "uf_lower": T.Str, "uf_path_of": T.Ref("Path"), "uf_os": T.Ref("OS"), "uf_bytes_of": T.Str, "uf_text_of": T.Str, "uf_sha256": T.Str, "uf_json_report_id": T.Str, "uf_encode": T.Str, "uf_bangs": T.Int, "uf_nobang": T.Str, "uf_tzvalid": T.Bool,
+          "uf_split": T.List(T.Str, region="strparts"), "uf_walk": T.Ref("Task"), "uf_walkok": T.Bool}
 
 
 def parse_ty(spec: str):
@@ -906,6 +945,14 @@ def _method(ex, f: ast.Attribute, node, st):
         if name == "replace":
             from .calendar import dt_replace
             return dt_replace(ex, base, node, st)
+    if ty is T.Str and name == "startswith" and len(node.args) == 1 and isinstance(node.args[0], ast.Constant) \
+            and isinstance(node.args[0].value, str):
+        from . import strings as _s
+        return _s.startswith(ex, base, node.args[0].value)
+    if ty is T.Str and name == "split" and len(node.args) == 1 and isinstance(node.args[0], ast.Constant) \
+            and isinstance(node.args[0].value, str):
+        from . import strings as _s
+        return _s.split(ex, st, base, node.args[0].value)
     if ty is T.Str and name in ("lower", "upper", "strip"):
         fn = z3.Function("uf_" + name, z3.IntSort(), z3.IntSort())
         return V(T.Str, [fn(base.t)])
